@@ -255,6 +255,14 @@ func subtableMap(st cmap.Subtable) map[rune]glyph.ID {
 		for c, g := range st {
 			m[rune(c)] = g
 		}
+	case *cmap.Format0:
+		for c, g := range st.Data {
+			if g != 0 {
+				m[rune(c)] = glyph.ID(g)
+			}
+		}
+	default:
+		panic(fmt.Sprintf("harness: subtable type %T not rendered", st))
 	}
 	return m
 }
@@ -710,4 +718,28 @@ func TestC10KnownEncoding(t *testing.T) {
 		t.Fatalf("subset with non-contiguous encoding cannot be written: %v", err)
 	}
 	stats.CaseIn("known-encoding", 1, false, nil)
+}
+
+// TestC10RegressByteEncodingCmap: a font whose cmap has a format 0 subtable
+// under the Windows symbol key is subset; the codes keep their meaning.
+func TestC10RegressByteEncodingCmap(t *testing.T) {
+	c := genfont.Gen(genfont.Opts{Kind: genfont.KindCFF, MinGlyphs: 5, MaxGlyphs: 6, Layout: genfont.LayoutNone}).Example(3)
+	f := c.Font
+	b0 := &cmap.Format0{}
+	b0.Data[0x41], b0.Data[0x42], b0.Data[0xF0] = 1, 2, 3
+	key := cmap.Key{PlatformID: 3, EncodingID: 0}
+	f.CMapTable = cmap.Table{key: b0.Encode(0)}
+	var s *sfnt.Font
+	if pn := guard.Try(func() { s = f.Subset([]glyph.ID{0, 3, 1}) }); pn != nil {
+		t.Fatalf("Subset panicked: %s", pn)
+	}
+	st, err := s.CMapTable.Get(key)
+	if err != nil {
+		t.Fatalf("subtable %v lost: %v", key, err)
+	}
+	for code, want := range map[rune]glyph.ID{0x41: 2, 0x42: 0, 0xF0: 1, 0x43: 0} {
+		if got := st.Lookup(code); got != want {
+			t.Errorf("code %#x: new glyph %d, want %d", code, got, want)
+		}
+	}
 }
